@@ -579,14 +579,23 @@ func (r *rewriter) insertStmtYields() {
 		}
 		return out
 	}
+	skip := map[*ast.BlockStmt]bool{}
 	ast.Inspect(r.file, func(n ast.Node) bool {
 		switch b := n.(type) {
 		case *ast.FuncDecl:
 			if b.Body == nil {
 				return false
 			}
+		case *ast.SwitchStmt:
+			skip[b.Body] = true
+		case *ast.TypeSwitchStmt:
+			skip[b.Body] = true
+		case *ast.SelectStmt:
+			skip[b.Body] = true
 		case *ast.BlockStmt:
-			b.List = withYields(b.List)
+			if !skip[b] {
+				b.List = withYields(b.List)
+			}
 		case *ast.CaseClause:
 			b.Body = withYields(b.Body)
 		case *ast.CommClause:
